@@ -40,10 +40,7 @@ def near_equal(g, A, B):
     if not g.symbolic:
         return False
     a, b = A.gTAA().reshape(-1), B.gTAA().reshape(-1)
-    for i in range(6):
-        if not (abs(a[i] - b[i]) <= 1e-8):
-            return False
-    return True
+    return bool(T.sand(*[T.le(abs(a[i] - b[i]), 1e-8) for i in range(6)]))      # one decision
 
 
 def _is_early(obj, MB):
@@ -290,8 +287,8 @@ class Screw_sub_across(_SumAcross):
 
 
 for _c in (Wrench_add_across, Wrench_sub_across, Screw_add_across, Screw_sub_across):
-    register(type(_c.__name__ + '_sixvec_frames', (_c,), dict(fkind='E', __doc__=(_c.__doc__ or '') +
-                                                              ' (frames given by six-vectors)')))
+    register(type(_c.__name__ + '_sixvec_frames', (_c,), dict(fkind='E', tier='quick' if _c is Screw_add_across else 'thorough',
+                                                              __doc__=(_c.__doc__ or '') + ' (frames given by six-vectors)')))
 
 # ---------------------------------------------------------------------------------------------------
 # vector-space laws, per operand kind
